@@ -20,7 +20,61 @@ from checks import frontend_common as fc
 from vf import build, express, exprparse, tlc
 from vf.common import InfraError, mkdir
 
-HEAD = ["SCHEMA ex;", "@@CONSTANTS@@", "FUNCTION f1(p : NUMBER) : NUMBER; RETURN (p); END_FUNCTION;", "ENTITY host;", "  a1 : INTEGER;",
+# every statement kind of ISO 10303-11 clause 13 (compared declaration-wise with the printed text)
+STATEMENTS = """FUNCTION stm(p : INTEGER; l : LIST OF INTEGER) : INTEGER;
+  LOCAL
+    v : INTEGER := 0;
+    w : LIST OF INTEGER := [];
+    s : STRING := 'x';
+  END_LOCAL;
+  ;
+  v := p + 1;
+  w[1] := v;
+  IF v > 1 THEN
+    v := 2;
+  ELSE
+    v := 3;
+    SKIP;
+  END_IF;
+  IF (v = 2) AND NOT (p = 0) THEN
+    RETURN (v);
+  END_IF;
+  CASE p OF
+    -1 : RETURN (0);
+    2 : v := 1;
+    3 : BEGIN
+      v := 4;
+      v := v * 2;
+    END;
+    OTHERWISE : v := -v;
+  END_CASE;
+  REPEAT i := 1 TO 10 BY 2;
+    v := v + i;
+  END_REPEAT;
+  REPEAT i := HIINDEX(l) TO LOINDEX(l) BY -1 WHILE v < 100 UNTIL v > 50;
+    v := v + l[i];
+    IF v = 7 THEN
+      ESCAPE;
+    END_IF;
+  END_REPEAT;
+  REPEAT WHILE v > 1000;
+    v := v DIV 2;
+  END_REPEAT;
+  ALIAS q FOR w;
+    INSERT (q, v, 0);
+    REMOVE (q, 1);
+  END_ALIAS;
+  RETURN (v);
+END_FUNCTION;
+FUNCTION stmcase(p : INTEGER) : INTEGER;
+  CASE p OF
+    -1, 1, 2 : RETURN (1);
+    -(2 + 1) : RETURN (2);
+    OTHERWISE : RETURN (0);
+  END_CASE;
+  RETURN (3);
+END_FUNCTION;"""
+HEAD = ["SCHEMA ex;", "@@CONSTANTS@@", STATEMENTS, "FUNCTION f1(p : NUMBER) : NUMBER; RETURN (p); END_FUNCTION;", "ENTITY host;", "  a1 : INTEGER;",
         "  a7 : NUMBER;", "  a3 : STRING;"]
 
 
@@ -139,6 +193,8 @@ def decl_tokens(text):
             merged.pop()
             pk, pv = merged.pop()
             v = pv[:-1] + v[1:]
+        if v == ";" and merged and merged[-1][1] == ";":
+            continue            # a null statement (the printer drops it)
         merged.append((k, v))
     norm = merged
     decls, cur = [], []
@@ -302,6 +358,13 @@ def run(ctx):
             if e != exprparse.norm(c["e"]):
                 ctx.violation("expr-differs|" + c["src"], "%s printed as %s (exppp %s)" % (c["src"], " ".join(t[1] for t in got[name])[:160], tagw),
                               {"case": c, "options": opts, "printed": [t[1] for t in got[name]]})
+        # (2b) the algorithm declarations (every statement kind) token by token
+        fa, fb = decl_diff(open(src).read(), out)
+        fa = {d for d in fa if d and d[0] == "FUNCTION"}
+        fb = {d for d in fb if d and d[0] == "FUNCTION"}
+        if fa != fb:
+            ctx.violation("statements-differ|" + tagw, "exppp %s: function declarations differ: only in source %s; only in output %s" % (
+                tagw, sorted(" ".join(x)[:300] for x in fa - fb)[:1], sorted(" ".join(x)[:300] for x in fb - fa)[:1]), {"options": opts, "output": out[:4000]})
         # (3) idempotence up to line breaks
         rc2, err2, out2 = run_exppp(bdir, o1, os.path.join(wd, "w%d" % wi, "again"), opts)
         if reprint_verdict(out, out2):
